@@ -7,6 +7,9 @@ bit pattern and converted to its exact rational value; answers are exact rationa
                                                  (`_r`: every addition and subtraction rounded to binary64, ties to even)
   anglearr <fn> <halfTurnBits> <xBits>,<xBits>…  the array form (`List.map`), answers joined by `,`
 
+  anglecall <fn> <piBits> <form> <xBits>         the call `f(x[, flag | deg=flag])`: fn ∈ y2h | h2y | y2h_r | h2y_r,
+                                                 form ∈ omitted | pos1 | pos0 | kw1 | kw0 (`Angle.UnitArg`); `piBits` = `math.pi`
+
 `halfTurnBits` is the double used as the half turn (`180.0`, or `math.pi` for the `deg=False` branch).
 -/
 import FeVerif.Model.Angle
@@ -63,10 +66,37 @@ def cmdAngleArr (args : List String) : String :=
     | _, _ => "bad-args"
   | _ => "bad-args"
 
+def unitArg? (s : String) : Option UnitArg :=
+  match s with
+  | "omitted" => some .omitted
+  | "pos1" => some (.positional true)
+  | "pos0" => some (.positional false)
+  | "kw1" => some (.keyword true)
+  | "kw0" => some (.keyword false)
+  | _ => none
+
+def cmdAngleCall (args : List String) : String :=
+  match args with
+  | [fn, pb, form, xb] =>
+    match unitArg? form, parseBits pb, parseBits xb with
+    | some u, some pb, some xb =>
+      match ofBits pb, ofBits xb with
+      | some piD, some x =>
+        match fn with
+        | "y2h" => showRat (yawToHeadingCall piD u x)
+        | "h2y" => showRat (headingToYawCall piD u x)
+        | "y2h_r" => showRat (yawToHeadingR roundDouble (halfTurn piD u.deg) x)
+        | "h2y_r" => showRat (headingToYawR roundDouble (halfTurn piD u.deg) x)
+        | _ => "bad-args"
+      | _, _ => "nonfinite"
+    | _, _, _ => "bad-args"
+  | _ => "bad-args"
+
 def dispatchAngle (cmd : String) (args : List String) : Option String :=
   match cmd with
   | "angle" => some (cmdAngle args)
   | "anglearr" => some (cmdAngleArr args)
+  | "anglecall" => some (cmdAngleCall args)
   | _ => none
 
 end FeVerif
